@@ -1015,9 +1015,72 @@ func (d *Document) ResizeImage(imageInfo *ImageInfo, size *ImageSize) error {
 
 	imageInfo.Config.Size = size
 
-	// 如果图片已经被添加到文档中，需要重新生成
-	// 注意：这是一个简化的实现，实际应用中可能需要更复杂的更新机制
+	// 图片已经被添加到文档中时，同步更新其绘图元素的显示尺寸（wp:extent 与 a:ext）
+	if d.Body != nil {
+		cx, cy := d.calculateDisplaySize(imageInfo)
+		d.updateDrawingExtent(d.Body.Elements, imageInfo, fmt.Sprintf("%d", cx), fmt.Sprintf("%d", cy))
+	}
 	return nil
+}
+
+// updateDrawingExtent 在正文元素（段落、表格及其嵌套表格）中查找imageInfo对应的绘图元素并更新其显示尺寸
+func (d *Document) updateDrawingExtent(elements []interface{}, imageInfo *ImageInfo, cx, cy string) {
+	for _, element := range elements {
+		switch e := element.(type) {
+		case *Paragraph:
+			updateRunsDrawingExtent(e.Runs, imageInfo, cx, cy)
+		case *Table:
+			updateTableDrawingExtent(e, imageInfo, cx, cy)
+		}
+	}
+}
+
+func updateTableDrawingExtent(table *Table, imageInfo *ImageInfo, cx, cy string) {
+	for r := range table.Rows {
+		for c := range table.Rows[r].Cells {
+			cell := &table.Rows[r].Cells[c]
+			for p := range cell.Paragraphs {
+				updateRunsDrawingExtent(cell.Paragraphs[p].Runs, imageInfo, cx, cy)
+			}
+			for t := range cell.Tables {
+				updateTableDrawingExtent(&cell.Tables[t], imageInfo, cx, cy)
+			}
+		}
+	}
+}
+
+func updateRunsDrawingExtent(runs []Run, imageInfo *ImageInfo, cx, cy string) {
+	for i := range runs {
+		drawing := runs[i].Drawing
+		if drawing == nil {
+			continue
+		}
+		var docPr *DrawingDocPr
+		var extent *DrawingExtent
+		var graphic *DrawingGraphic
+		switch {
+		case drawing.Inline != nil:
+			docPr, extent, graphic = drawing.Inline.DocPr, drawing.Inline.Extent, drawing.Inline.Graphic
+		case drawing.Anchor != nil:
+			docPr, extent, graphic = drawing.Anchor.DocPr, drawing.Anchor.Extent, drawing.Anchor.Graphic
+		}
+		if docPr == nil || docPr.ID != imageInfo.ID {
+			continue
+		}
+		if graphic == nil || graphic.GraphicData == nil || graphic.GraphicData.Pic == nil {
+			continue
+		}
+		pic := graphic.GraphicData.Pic
+		if pic.BlipFill == nil || pic.BlipFill.Blip == nil || pic.BlipFill.Blip.Embed != imageInfo.RelationID {
+			continue
+		}
+		if extent != nil {
+			extent.Cx, extent.Cy = cx, cy
+		}
+		if pic.SpPr != nil && pic.SpPr.Xfrm != nil && pic.SpPr.Xfrm.Ext != nil {
+			pic.SpPr.Xfrm.Ext.Cx, pic.SpPr.Xfrm.Ext.Cy = cx, cy
+		}
+	}
 }
 
 // SetImagePosition 设置图片位置
